@@ -68,7 +68,7 @@ CHECKS = {
             "DESIGN.md §4 C12", "E1-BFS+E2"),
     "C13": ("exploration",
             "deviation-bounded exhaustive enumeration of documents (base x key path x shape, 0/1/2 deviations) x every split point, against outcome/idempotence/path-independence/loader oracles",
-            "Golden inputs of every schema version plus minimal and raw documents; every key path present plus every string literal of later steps placed under root and top-level objects, replaced by 9 shapes (1 deviation in quick, pairs in thorough); list-duplication variants; each migrated in one run and through every split point; no panic, error=>unchanged, stamped, idempotent, split-independent, unrelated key kept, loader accepts valid inputs.",
+            "Golden inputs of every schema version plus minimal and raw documents; every key path present plus every string literal of later steps placed under root and top-level objects, replaced by 10 shapes (incl. a whole number spelled as a float) (1 deviation in quick, pairs in thorough); list-duplication variants; each migrated in one run and through every split point; no panic, error=>unchanged, stamped, idempotent, split-independent, unrelated key kept, loader accepts valid inputs.",
             "yaml.v3 round trip is faithful; validity under a document's own schema assumed only for golden inputs and their list-duplication variants; bcrypt hashes (random salt) compared as equal.",
             "DESIGN.md §4 C13", "E1-stateless"),
     "C19": ("model_checking",
